@@ -18,13 +18,23 @@ type MOp struct {
 
 // MapCase is a history for one omap.Map.
 type MapCase struct {
-	Cmp  string `json:"cmp"`  // "nat", "rev", "half" (compare k/2: equivalence classes of two keys)
+	Mag  int    `json:"mag,omitempty"` // 0: comparator returns -1/0/+1; 1: the difference; 2: +-MaxInt32
+	Cmp  string `json:"cmp"`           // "nat", "rev", "half" (compare k/2: equivalence classes of two keys)
 	Zero bool   `json:"zero"` // use the zero Map (read-only empty map)
 	Ops  []MOp  `json:"ops"`
 }
 
-func mapCmp(kind string) func(a, b int) int {
+func mapCmp(kind string, mag int) func(a, b int) int {
 	c3 := func(a, b int) int {
+		switch mag % 3 {
+		case 1:
+			return a - b
+		case 2:
+			if a != b {
+				return (a - b) / max(a-b, b-a) * (1<<31 - 1)
+			}
+			return 0
+		}
 		switch {
 		case a < b:
 			return -1
@@ -192,10 +202,10 @@ func (r *mapRun) absentKey(sel int) (int, bool) {
 }
 
 func runC04(c MapCase, o *vk.Obs) string {
-	r := &mapRun{c: c, cmp: mapCmp(c.Cmp), pos: -1, step: -1}
+	r := &mapRun{c: c, cmp: mapCmp(c.Cmp, c.Mag), pos: -1, step: -1}
 	if !c.Zero {
 		r.m[0] = omap.NewFunc[int, int](r.cmp)
-		if c.Cmp == "nat" {
+		if c.Cmp == "nat" && c.Mag%3 == 0 {
 			r.m[0] = omap.New[int, int]()
 		}
 	}
@@ -387,5 +397,6 @@ func runC04(c MapCase, o *vk.Obs) string {
 	o.ClassIf(r.deletes > 0, "has_delete")
 	o.ClassIf(c.Zero, "zero_map")
 	o.Class("cmp=" + c.Cmp)
+	o.ClassIf(c.Mag%3 != 0, "comparator_returns_magnitudes")
 	return ""
 }
